@@ -93,6 +93,11 @@ def check(chk):
     nsym = field_symmetry(chk, "AGREE.fields.symmetric", tfns)
     chk.require(nsym >= 2, f"AGREE.fields.symmetric: only {nsym} two-field transform functions compared")
     _acc(chk)
+    # transform(training data) carries the labels of the data it was given: the label path of transform reads what this very
+    # call recorded and has no fall-back to the coordinates remembered at fit (shared with C05.UNSEEN.pure) - with a
+    # fall-back, what an EARLIER transform of other data left behind labels the projection of the training data
+    from . import c05 as _c05
+    _c05._unseen_pure(_RLq(chk, "UNSEEN.pure", "AGREE.labels.pure"))
     chk.floor("SPACE.project", 6)
     chk.floor("AGREE", 6)
     chk.floor("ACC", 20)
